@@ -46,6 +46,14 @@ def lookup (snap : List Nat) (attr : List Author) (y : Nat) : Option Author :=
   | x :: xs, a :: as => if x = y then some a else lookup xs as y
   | _, _ => none
 
+/-- elements paired with their positions, counting from `k` -/
+def enumFrom {α} (k : Nat) : List α → List (Nat × α)
+  | [] => []
+  | x :: xs => (k, x) :: enumFrom (k + 1) xs
+
+/-- positions (1-based) paired with elements -/
+def enum1 {α} (l : List α) : List (Nat × α) := enumFrom 1 l
+
 /-- INITIAL applied to a content by line number: author of line `i` (1-based) -/
 def initialAuthor (initial : List (Nat × Nat)) (i : Nat) : Author :=
   match initial.find? (fun p => p.1 = i) with
@@ -60,7 +68,7 @@ def previous (st : State) : Entry :=
   | some e => e
   | none =>
     if st.initial.isEmpty then ⟨st.head, st.head.map (fun _ => none)⟩
-    else ⟨st.work, (List.range st.work.length).map (fun i => initialAuthor st.initial (i + 1))⟩
+    else ⟨st.work, (enum1 st.work).map (fun p => initialAuthor st.initial p.1)⟩
 
 /-- per-line authors after a checkpoint by `who`: a line whose id is in the previous snapshot
     keeps its author, every other line belongs to `who` -/
@@ -78,7 +86,7 @@ def checkpoint (st : State) (who : Author) : State :=
 def effective (st : State) : List Author :=
   match st.entries.getLast? with
   | some e => checkpointAttr e st.work none     -- lines not in the snapshot: nobody's (human)
-  | none => (List.range st.work.length).map (fun i => initialAuthor st.initial (i + 1))
+  | none => (enum1 st.work).map (fun p => initialAuthor st.initial p.1)
 
 inductive Op where
   | humanEdit (ys : List Nat)          -- a person rewrites the file to `ys` (no report)
@@ -88,9 +96,6 @@ inductive Op where
   | stage (ys : List Nat)              -- `git add -p`: an explicit staged version
   | commit
   deriving Repr, DecidableEq
-
-/-- positions (1-based) paired with elements -/
-def enum1 {α} (l : List α) : List (Nat × α) := (List.range l.length).map (· + 1) |>.zip l
 
 /-- commit of the index. The note lists, among the committed lines that the commit adds (id not in
     the old HEAD), those whose effective author is an AI session. AI lines of the working tree
